@@ -92,9 +92,7 @@ pub fn c08_q_iter_first_steps() {
     let w = upto(4);
     let mut it = Circle::new(tl, w).points();
     if it.next().is_some() { n += 1; }
-    let mut it = Ellipse::new(tl, Size::new(w, sz.height)).points();
-    if it.next().is_some() { n += 1; }
-    reach!(n == 6, "reach.all_items");
+    reach!(n == 5, "reach.all_items");
 }
 
 /// images, sub-images and the framebuffer reject out-of-range coordinates without a panic
@@ -153,6 +151,34 @@ pub fn c08_q_text_queries() {
     reach!(next.y > pos.y && m.bounding_box.size.width > 0, "reach.advanced");
 }
 
+/// custom fonts with character spacing: empty and short lines, every baseline (no built-in font has spacing)
+#[cfg_attr(kani, kani::proof, kani::unwind(9))]
+pub fn c08_q_text_custom_spacing() {
+    let data = [0u8; 4];
+    let image = ImageRaw::<BinaryColor>::new(&data, Size::new(8, 4)).unwrap();
+    let constant = |_c: char| 0usize;
+    let sp = small_u(3);
+    let font = MonoFont {
+        image,
+        glyph_mapping: &constant,
+        character_size: Size::new(small_u(3), small_u(3)),
+        character_spacing: sp,
+        baseline: small_u(3),
+        underline: embedded_graphics::mono_font::DecorationDimensions::new(small_u(4), small_u(2)),
+        strikethrough: embedded_graphics::mono_font::DecorationDimensions::new(small_u(3), small_u(2)),
+    };
+    note!("font", font);
+    let bl = match pick(4) { 0 => Baseline::Top, 1 => Baseline::Bottom, 2 => Baseline::Middle, _ => Baseline::Alphabetic };
+    let cs = MonoTextStyleBuilder::new().font(&font).background_color(Gray8::new(1)).underline_with_color(Gray8::new(2)).build();
+    let pos = dpoint();
+    let m0 = cs.measure_string("", pos, bl);
+    let m1 = cs.measure_string("!", pos, bl);
+    let ts = TextStyleBuilder::new().baseline(bl).alignment(match pick(3) { 0 => Alignment::Left, 1 => Alignment::Center, _ => Alignment::Right }).build();
+    let t = Text::with_text_style("\n!", pos, cs, ts);
+    let _ = t.bounding_box();
+    reach!(sp > 0 && m1.bounding_box.size.width > 0 && m0.bounding_box.size.width == 0, "reach.spacing");
+}
+
 /// complete draws of degenerate objects (zero sizes, coincident vertices, empty polyline, widths
 /// larger than the shape, dotted strokes) on the native target: concrete objects, symbolic style
 macro_rules! c08_degenerate {
@@ -190,7 +216,8 @@ pub fn $name() {
 }
 c08_degenerate!(c08_q_degenerate_w0_fill, style(0, StrokeAlignment::Center, Some(Gray8::new(1)), None));
 c08_degenerate!(c08_q_degenerate_w1_both, style(1, StrokeAlignment::Inside, Some(Gray8::new(1)), Some(Gray8::new(2))));
-c08_degenerate!(c08_q_degenerate_w2_stroke, style(2, StrokeAlignment::Center, None, Some(Gray8::new(2))));
+#[cfg(feature = "thorough")]
+c08_degenerate!(c08_t_degenerate_w2_stroke, style(2, StrokeAlignment::Center, None, Some(Gray8::new(2))));
 #[cfg(feature = "thorough")]
 c08_degenerate!(c08_t_degenerate_w5_stroke, style(5, StrokeAlignment::Center, None, Some(Gray8::new(2))));
 #[cfg(feature = "thorough")]
